@@ -8,42 +8,147 @@ def _sum(results, key):
 CHECKS = {}
 NOT_APPLICABLE = {}  # property -> reason, for properties deliberately not claimed
 
+# ------------------------------------------------------------------------------------------------ C01
+def _px(name, *args, **kw):
+    return dict(name=name, driver="parsex", args=list(args), **kw)
+
+
+CHECKS["C01"] = dict(
+    level="exploration",
+    rule="Documents: all words <= k over the byte/token alphabets (document tokens incl. raw invalid bytes, DTD-subset tokens placed in an internal and "
+         "in an external subset, XSD component tokens inside xs:schema), a catalogue of single-constraint violations, the DTD-rich structured space and "
+         "every proper byte prefix of its documents. Each document is parsed under a *listed* configuration set: the full product "
+         "{SAX1,SAX2,DOM,DOMLS,progressive} x 4 scanners x 3 validation schemes x 2^7 features (7680 configurations) for k<=1, and the 60 cores x a "
+         "16-row strength-2 covering array of the 7 features (960 configurations) or a 48-configuration subset otherwise. Oracle: process survives, no "
+         "ASan/UBSan report (-fno-sanitize-recover), only documented exception types, per-case watchdog (re-run alone at 20x before being called a hang), "
+         "with SecurityManager(limit 5) at most limit+1 entity expansions are started. Cases are distinct by construction; non-trivial = documents whose outcome "
+         "class (clean / validity errors / fatal / exception) differs between configurations.",
+    trusted_base=["clang 14 ASan+UBSan (-fno-sanitize-recover=undefined)", "expat 2.5.0 (prefix sub-space verdicts)"],
+    assumptions=["bytes/tokens outside the listed alphabets and inputs longer than the ladders are not covered", "allocation failure is not injected"],
+    coverage=lambda rs: {"distinct_nontrivial": _sum(rs, "nontrivial") + _sum(rs, "ref_malformed") + _sum(rs, "ref_wellformed"), "parses": _sum(rs, "parses")},
+    runs=dict(
+        quick=[_px("doc-words-k1-full-product", "--space", "c01", "--docs", "s1", "--k", 1, "--cfgset", "full"),
+               _px("doc-words-k2-48cfg", "--space", "c01", "--docs", "s1", "--k", 2, "--cfgset", "small"),
+               _px("catalogue-960cfg", "--space", "c01", "--docs", "s3", "--cfgset", "array"),
+               _px("dtd-words-k1-960cfg", "--space", "c01", "--docs", "dtd", "--k", 1, "--cfgset", "array"),
+               _px("xsd-words-k1-960cfg", "--space", "c01", "--docs", "xsd", "--k", 1, "--cfgset", "array"),
+               _px("prefixes", "--space", "prefix", "--rootattrs", 1, "--content", 0)],
+        thorough=[_px("doc-words-k1-full-product", "--space", "c01", "--docs", "s1", "--k", 1, "--cfgset", "full"),
+                  _px("doc-words-k2-960cfg", "--space", "c01", "--docs", "s1", "--k", 2, "--cfgset", "array"),
+                  _px("doc-words-k3-48cfg", "--space", "c01", "--docs", "s1", "--k", 3, "--cfgset", "small"),
+                  _px("catalogue-full-product", "--space", "c01", "--docs", "s3", "--cfgset", "full"),
+                  _px("dtd-words-k2-48cfg", "--space", "c01", "--docs", "dtd", "--k", 2, "--cfgset", "small"),
+                  _px("dtd-words-k1-full", "--space", "c01", "--docs", "dtd", "--k", 1, "--cfgset", "full"),
+                  _px("xsd-words-k2-48cfg", "--space", "c01", "--docs", "xsd", "--k", 2, "--cfgset", "small"),
+                  _px("dtd-rich-k1-960cfg", "--space", "c01", "--docs", "s4", "--k", 1, "--cfgset", "array"),
+                  _px("prefixes", "--space", "prefix", "--rootattrs", 2, "--content", 0)],
+    ),
+    manifest=dict(technique="bounded-exhaustive enumeration of byte/token words x listed configuration product on the real parser under ASan+UBSan with crash pinning and watchdog"),
+)
+
 # ------------------------------------------------------------------------------------------------ C02
 CHECKS["C02"] = dict(
     level="exploration",
-    rule="Every word of length <= k over the listed document-token alphabet is one case (distinct by construction); each case is parsed by "
-         "{SAX2,SAX1,progressive,DOM,DOMLS} x {IG,WF,DG,SG} x namespaces {off,on} and the fatal/no-fatal verdict is compared with expat 2.5 run on the "
-         "same bytes in the matching namespace mode. Non-trivial = (document, namespace mode) pairs the reference classifies (well-formed or malformed) "
-         "for which at least one Xerces configuration was compared; counted as ref_wellformed + ref_malformed.",
+    rule="Cases (distinct by construction): (s1) every word of length <= k over the 52-token document alphabet; (s3) a catalogue of ~160 documents each "
+         "violating exactly one well-formedness/encoding constraint or being a tricky well-formed one, labelled by construction *and* judged by expat "
+         "(label/reference disagreement is a harness error); (s4) the DTD-rich structured space prolog x root attributes x content words; (s11) XML 1.0/1.1 "
+         "line-end / control-character items with by-construction verdict (expat cannot speak 1.1); (prefix) every proper byte prefix of the s4 core "
+         "documents. Each case is parsed by {SAX2,SAX1,progressive,DOM,DOMLS} x {IG,WF,DG,SG} x namespaces {off,on}; fatal/no-fatal verdict compared "
+         "with expat 2.5 in the matching namespace mode. Non-trivial = (document, namespace mode) pairs classified by the reference and compared.",
     trusted_base=["expat 2.5.0 as reference well-formedness oracle", "clang 14 ASan/UBSan"],
-    assumptions=["DOCTYPE-bearing words are not claimed for WFXMLScanner/SGXMLScanner (documented to skip the DOCTYPE)",
+    assumptions=["DOCTYPE-bearing documents are not claimed for WFXMLScanner/SGXMLScanner (documented to skip the DOCTYPE)",
                  "SGXMLScanner is only run with namespaces on (the schema scanner always performs namespace processing)",
-                 "version='2.0' style declarations are not in the expat-compared alphabet (expat accepts any VersionNum)"],
-    coverage=lambda rs: {"distinct_nontrivial": _sum(rs, "ref_wellformed") + _sum(rs, "ref_malformed"),
-                         "parses": _sum(rs, "parses")},
+                 "version='2.0' / version='' declarations are judged by construction only (expat accepts any VersionNum)",
+                 "an encoding declaration that contradicts the auto-sensed family while the bytes decode identically (ASCII document declared UTF-16 "
+                 "but stored as UTF-8) is reported by Xerces as a warning and not claimed here (belongs to C05's 'is reported' clause)"],
+    coverage=lambda rs: {"distinct_nontrivial": _sum(rs, "ref_wellformed") + _sum(rs, "ref_malformed"), "parses": _sum(rs, "parses")},
     runs=dict(
-        quick=[dict(name="s1-words-k3", driver="parsex", args=["--space", "s1", "--k", 3, "--content", 0])],
-        thorough=[dict(name="s1-words-k3", driver="parsex", args=["--space", "s1", "--k", 3, "--content", 0]),
-                  dict(name="s1-words-k4-small", driver="parsex", args=["--space", "s1", "--k", 4, "--tokens", "small", "--content", 0, "--apis", 6])],
+        quick=[_px("s1-words-k3", "--space", "s1", "--k", 3, "--content", 0),
+               _px("s3-catalogue", "--space", "s3", "--content", 0),
+               _px("s11-xml11-k2", "--space", "s11", "--k", 2),
+               _px("s4-dtd-rich-k1", "--space", "s4", "--k", 1, "--content", 0),
+               _px("prefixes", "--space", "prefix", "--rootattrs", 1, "--content", 0)],
+        thorough=[_px("s1-words-k3", "--space", "s1", "--k", 3, "--content", 0),
+                  _px("s1-words-k4-26tok", "--space", "s1", "--k", 4, "--tokens", "small", "--content", 0, "--apis", 6),
+                  _px("s3-catalogue", "--space", "s3", "--content", 0),
+                  _px("s11-xml11-k3", "--space", "s11", "--k", 3),
+                  _px("s4-dtd-rich-k2", "--space", "s4", "--k", 2, "--content", 0),
+                  _px("prefixes", "--space", "prefix", "--rootattrs", 4, "--content", 0)],
     ),
+    manifest=dict(technique="bounded-exhaustive enumeration of token words / catalogue / byte prefixes, verdict differential against expat and by-construction labels"),
 )
 
 # ------------------------------------------------------------------------------------------------ C03
 CHECKS["C03"] = dict(
     level="exploration",
-    rule="Same enumeration as C02; for every word the reference accepts, the complete event stream (elements, attributes, text, CDATA, comments, "
-         "PIs, DOCTYPE, declarations, element line numbers) of every API/scanner is compared with expat's and pairwise between APIs. "
-         "Non-trivial = well-formed (document, namespace mode) pairs whose content was compared (ref_wellformed).",
+    rule="Same enumerations as C02 restricted to what the reference accepts; for every such document the complete event stream (elements, attributes "
+         "after normalisation/defaulting with specified flags, text, CDATA sections, comments, PIs, DOCTYPE, entity/notation declarations, element line "
+         "numbers derived independently from the raw bytes) of SAX2 is compared with expat's, SAX1/progressive/DOM/DOMLS/DOM-with-entity-reference-nodes "
+         "pairwise with SAX2, DOM additionally with expat directly, all four scanners with IGXMLScanner; XML 1.1 documents against the by-construction "
+         "infoset. Non-trivial = well-formed (document, namespace mode) pairs whose content was compared.",
     trusted_base=["expat 2.5.0 as reference infoset oracle", "clang 14 ASan/UBSan"],
     assumptions=["SAX2 startDTD/endDTD are compared only when the DOCTYPE has an internal or external subset (documented 'DTD declarations, if any')",
-                 "PIs/comments inside the DTD are not compared for SAX/SAX2 (not forwarded by design)"],
-    coverage=lambda rs: {"distinct_nontrivial": _sum(rs, "ref_wellformed"), "content_comparisons": _sum(rs, "content_compared"),
-                         "parses": _sum(rs, "parses")},
+                 "PIs inside the DTD are not forwarded by SAX/SAX2 by design (doctypePI unused) and comments inside the DTD have no DOM node: both are projected away",
+                 "absent public/system identifiers are null in some APIs and empty strings in others: treated as the same information",
+                 "column numbers are compared between Xerces APIs only (expat counts bytes)"],
+    coverage=lambda rs: {"distinct_nontrivial": _sum(rs, "ref_wellformed"), "content_comparisons": _sum(rs, "content_compared"), "parses": _sum(rs, "parses")},
     runs=dict(
-        quick=[dict(name="s1-words-k3", driver="parsex", args=["--space", "s1", "--k", 3])],
-        thorough=[dict(name="s1-words-k3", driver="parsex", args=["--space", "s1", "--k", 3]),
-                  dict(name="s1-words-k4-small", driver="parsex", args=["--space", "s1", "--k", 4, "--tokens", "small", "--apis", 6])],
+        quick=[_px("s1-words-k2", "--space", "s1", "--k", 2),
+               _px("s3-catalogue", "--space", "s3"),
+               _px("s11-xml11-k2", "--space", "s11", "--k", 2),
+               _px("s4-dtd-rich-k2", "--space", "s4", "--k", 2, "--rootattrs", 2)],
+        thorough=[_px("s1-words-k3", "--space", "s1", "--k", 3),
+                  _px("s3-catalogue", "--space", "s3"),
+                  _px("s11-xml11-k3", "--space", "s11", "--k", 3),
+                  _px("s4-dtd-rich-k2", "--space", "s4", "--k", 2, "--rootattrs", 4),
+                  _px("s4-dtd-rich-k3", "--space", "s4", "--k", 3, "--rootattrs", 1, "--apis", 6)],
     ),
+    manifest=dict(technique="bounded-exhaustive enumeration of token words, event-stream differential against expat and pairwise between APIs/scanners"),
+)
+
+
+# ------------------------------------------------------------------------------------------------ C04
+def _cx(name, *args, **kw):
+    return dict(name=name, driver="chunkx", args=list(args), **kw)
+
+
+def _c04_cov(rs):
+    plans = sum(v for r in rs for k, v in r.get("counters", {}).items() if k.startswith("plans:"))
+    slide = sum(r.get("counters", {}).get("evaluations", 0) for r in rs if r.get("space") == "slide")
+    docs = sum(r.get("corpus", 0) for r in rs if r.get("space") == "cuts")
+    return {"states": docs + sum(r.get("constructs", 0) for r in rs), "transitions": plans + slide, "traces_validated_against_impl": _sum(rs, "parses"),
+            "distinct_nontrivial": _sum(rs, "cut_inside_multibyte") + _sum(rs, "cut_inside_crlf") + _sum(rs, "cut_inside_delimiter"),
+            "nonvacuity": {k: _sum(rs, k) for k in ("cut_inside_multibyte", "cut_inside_crlf", "cut_inside_delimiter", "wellformed", "malformed")},
+            "explanation": "states = corpus entities (+ sliding constructs); transitions = read plans / boundary placements explored; every plan is executed on the real parser "
+                           "(SAX2 and DOM) and compared with the undisturbed execution, so traces validated = parses"}
+
+
+CHECKS["C04"] = dict(
+    level="model_checking",
+    rule="Environment-answer exploration with iterated deviation bound: the environment answer is the size returned by each readBytes(); a deviation is a cut. "
+         "For each of 89 corpus entities (construct-dense documents <= 250 bytes in the roles document / external general entity / external subset / external "
+         "parameter entity, UTF-8, UTF-16 LE/BE with and without BOM, UCS-4, EBCDIC, Latin-1, Windows-1252, well-formed and malformed) ALL plans with 0 and 1 "
+         "cuts (2 cuts on every 5th entity in quick, on all in thorough), the uniform plans 'every read returns c bytes' c=1..8 and ALL 2^(n-1) partitions of "
+         "entities <= 14 bytes are executed, both unpadded (exercises the initial load: encoding probe, BOM, declaration) and behind a 49152-byte comment pad "
+         "(so that the cuts steer steady-state raw/character-buffer refills through the constructs). Sliding: 25 constructs x 4 pad widths x 3 real boundaries "
+         "(16384-char refill, 49152-byte refill, low-water mark) x offsets -s..+s, compared between one-shot, 977-byte and 4093-byte reads and with expat. "
+         "Sources: the same bytes through MemBuf, application InputSource, LocalFile (VFS), StdIn (VFS), relative LocalFile, Wrapper4DOMLSInput. Oracle: canonical dump incl. errors "
+         "with line/column equal to the undisturbed parse.",
+    trusted_base=["expat 2.5.0 (sliding sub-space content)", "clang 14 ASan/UBSan"],
+    assumptions=["real files, pipes and sockets are replaced by the VFS seam (XMLPlatformUtils::fgFileMgr)"],
+    coverage=_c04_cov,
+    runs=dict(
+        quick=[_cx("cuts-initial-load", "--space", "cuts", "--bound", 1, "--bound2-some", 1, "--max-viol", 400),
+               _cx("cuts-steady-state-padded", "--space", "cuts", "--bound", 1, "--pad", 1, "--partitions", 0, "--max-viol", 400),
+               _cx("slide-real-boundaries", "--space", "slide", "--slide", 1, "--max-viol", 400),
+               _cx("source-kinds", "--space", "sources")],
+        thorough=[_cx("cuts-initial-load", "--space", "cuts", "--bound", 2, "--max-viol", 400),
+                  _cx("cuts-steady-state-padded", "--space", "cuts", "--bound", 1, "--bound2-some", 1, "--pad", 1, "--max-viol", 400),
+                  _cx("slide-real-boundaries", "--space", "slide", "--slide", 8, "--max-viol", 400),
+                  _cx("source-kinds", "--space", "sources")],
+    ),
+    manifest=dict(technique="exhaustive exploration of stream read partitions (deviation-bounded cuts, uniform reads, all partitions of tiny inputs) and buffer-boundary placements on the real parser, compared with the undisturbed execution",
+                  text="Every read plan within the stated deviation bound is executed on the real parser and must reproduce the undisturbed result exactly (content, errors, positions)."),
 )
 
 
